@@ -2,7 +2,7 @@
    needs of the key of the second (canonical) sort.
 
    The sorted view is recomputed here with an ARBITRARY key [key : view -> str]
-   for the second pass ([sv_k], [sorted_view_k]); the repaired code is the
+   for the second pass ([sv_k], [sorted_view_k]); the code as it is (since fix commit 7597eca) is the
    instance key = _sort_key = [vkey Fx] ([sv_k_real]).
      * sufficient: a key that only depends on the canonical form and is
        injective on well-formed canonical forms gives order invariance
@@ -29,7 +29,7 @@ Definition sorted_view_k (key : view -> str) (top : list tree) : list view :=
 Lemma arrange_k_real ps : arrange_k (vkey Fx) ps = arrange Fx ps.
 Proof. reflexivity. Qed.
 
-(* the repaired code is the instance key = _sort_key *)
+(* the code as it is is the instance key = _sort_key *)
 Lemma sv_k_real t : sv_k (vkey Fx) t = sv Fx t.
 Proof.
   induction t as [a|l IH] using tree_ind2; [reflexivity|].
@@ -176,7 +176,7 @@ Section GoodKey.
   Qed.
 End GoodKey.
 
-(* the key of the repaired code satisfies both conditions *)
+(* the key of the code as it is satisfies both conditions *)
 Lemma real_key_is_good :
   (forall v, vkey Fx v = ckey (canon v)) /\
   (forall c d, wfc c = true -> wfc d = true -> ckey c = ckey d -> c = d).
